@@ -1,6 +1,120 @@
 import PppModel.Auto
+import PppModel.V2.Tlv
+import PppModel.Lemmas.Utf8
+import PppModel.Lemmas.V1NoPanic
 
-/-! # C16 (theorems under construction) -/
+/-!
+# C16 — the v1 entry points agree; owned copies equal their borrowed originals
+
+The text entry point (`TryFrom<&str>`), the byte entry point (`TryFrom<&[u8]>`) and the
+two `FromStr` implementations all examine the same window of the input: the line through
+the byte after its first CR (`V1.windowLength`).  For an input that is a `&str`
+(`Utf8.valid x`):
+
+* when the window does not end inside a multi-byte character, all four give the same
+  outcome (`entry_points_agree`, `entry_points_agree_too_long`);
+* when it does, all four return an error — `InvalidUtf8` from the byte entry point,
+  `InvalidSuffix` from the text ones (`mid_char_all_errors`).
+
+The bridge is `Utf8.valid_take_iff_boundary`: a prefix of a valid string is valid
+exactly when it ends on a character boundary.
+
+`owned_equal` records that `to_owned` is the identity in the model.  Ownership is erased
+in the model (a header is the list of its bytes, borrowed or owned), so the equality is
+`rfl`; the memory-safety clause of the claim — the owned value "remains valid after the
+buffer is overwritten or dropped" — is a statement about Rust lifetimes and allocation,
+it is observed by the harness on the real crate and is not provable in the model.
+
+That the panic-aware entry points never panic is `V1.parseStr_no_panic` and
+`V1.parseBytes_no_panic` in `PppModel/Lemmas/V1NoPanic.lean`.
+-/
 
 namespace C16
+
+/-- The window never reaches past the input. -/
+theorem windowLength_le {x : B} {n : Nat} (h : V1.windowLength x = some n) : n ≤ x.length :=
+  V1.windowLength_le h
+
+/-- Whenever the examined line — through the byte after its first CR — does not end
+inside a multi-byte character, the text, byte and both `FromStr` entry points give the
+same outcome. -/
+theorem entry_points_agree (x : B) (hx : Utf8.valid x = true) (n : Nat)
+    (hn : V1.windowLength x = some n) (hb : Utf8.isCharBoundary x n = true) :
+    V1.parseBytes x = (match V1.parseStr x with | .ok h => .ok h | .error e => .error (.parse e)) ∧
+    V1.fromStrHeader x = V1.parseStr x ∧
+    V1.fromStrAddresses x =
+      (match V1.parseStr x with | .ok h => .ok h.addresses | .error e => .error e) := by
+  have hv : Utf8.valid (x.take n) = true := by
+    rw [Utf8.valid_take_iff_boundary x hx n (V1.windowLength_le hn)]; exact hb
+  have hs : V1.parseStr x = V1.parseHeader (x.take n) := by
+    simp [V1.parseStr, hn, hb]
+  refine ⟨?_, ?_, ?_⟩
+  · rw [hs]
+    simp only [V1.parseBytes, hn, hv, Bool.not_true, Bool.false_eq_true, if_false]
+    cases V1.parseHeader (x.take n) <;> rfl
+  · unfold V1.fromStrHeader; cases V1.parseStr x <;> rfl
+  · unfold V1.fromStrAddresses; cases V1.parseStr x <;> rfl
+
+/-- No CR within the first 107 bytes: every entry point reports `HeaderTooLong`. -/
+theorem entry_points_agree_too_long (x : B) (hw : V1.windowLength x = none) :
+    V1.parseBytes x = .error (.parse .headerTooLong) ∧
+    V1.parseStr x = .error .headerTooLong ∧
+    V1.fromStrHeader x = .error .headerTooLong ∧
+    V1.fromStrAddresses x = .error .headerTooLong := by
+  have hs : V1.parseStr x = .error .headerTooLong := by simp [V1.parseStr, hw]
+  refine ⟨by simp [V1.parseBytes, hw], hs, ?_, ?_⟩
+  · simp [V1.fromStrHeader, hs]
+  · simp [V1.fromStrAddresses, hs]
+
+/-- When the examined line ends inside a multi-byte character, every entry point
+returns an error. -/
+theorem mid_char_all_errors (x : B) (hx : Utf8.valid x = true) (n : Nat)
+    (hn : V1.windowLength x = some n) (hb : Utf8.isCharBoundary x n = false) :
+    V1.parseBytes x = .error .invalidUtf8 ∧
+    V1.parseStr x = .error .invalidSuffix ∧
+    V1.fromStrHeader x = .error .invalidSuffix ∧
+    V1.fromStrAddresses x = .error .invalidSuffix := by
+  have hv : Utf8.valid (x.take n) = false := by
+    rw [Utf8.valid_take_iff_boundary x hx n (V1.windowLength_le hn)]; exact hb
+  have hs : V1.parseStr x = .error .invalidSuffix := by simp [V1.parseStr, hn, hb]
+  refine ⟨by simp [V1.parseBytes, hn, hv], hs, ?_, ?_⟩
+  · simp [V1.fromStrHeader, hs]
+  · simp [V1.fromStrAddresses, hs]
+
+/-- `to_owned` is the identity on v1 headers, v2 headers and TLVs.  Ownership is erased
+in the model, so these are `rfl`; that the owned value survives the buffer being
+overwritten or dropped is observed by the harness, not provable here. -/
+theorem owned_equal :
+    (∀ h : V1.Header, h.toOwned = h) ∧ (∀ h : V2.Header, h.toOwned = h) ∧
+    (∀ t : V2.Tlv, t.toOwned = t) :=
+  ⟨fun _ => rfl, fun _ => rfl, fun _ => rfl⟩
+
+/-! ## Non-vacuity -/
+
+/-- "\r€": the window (2 bytes) ends inside the three-byte character. -/
+example : Utf8.valid [0x0D, 0xE2, 0x82, 0xAC] = true := by decide
+example : V1.windowLength [0x0D, 0xE2, 0x82, 0xAC] = some 2 := by decide
+example : Utf8.isCharBoundary [0x0D, 0xE2, 0x82, 0xAC] 2 = false := by decide
+example : V1.parseStr [0x0D, 0xE2, 0x82, 0xAC] = .error .invalidSuffix := by decide
+example : V1.parseBytes [0x0D, 0xE2, 0x82, 0xAC] = .error .invalidUtf8 := by decide
+
+/-- "PROXY UNKNOWN\r€": a real prefix whose window (15 bytes) cuts the character. -/
+private def cut : B :=
+  [0x50,0x52,0x4F,0x58,0x59,0x20,0x55,0x4E,0x4B,0x4E,0x4F,0x57,0x4E,0x0D,0xE2,0x82,0xAC]
+example : Utf8.valid cut = true ∧ V1.windowLength cut = some 15 ∧
+    Utf8.isCharBoundary cut 15 = false := by decide
+example : V1.parseBytes cut = .error .invalidUtf8 ∧ V1.parseStr cut = .error .invalidSuffix ∧
+    V1.fromStrHeader cut = .error .invalidSuffix ∧ V1.fromStrAddresses cut = .error .invalidSuffix :=
+  mid_char_all_errors cut (by decide) 15 (by decide) (by decide)
+
+/-- "PROXY UNKNOWN\r\n€": the window ends on a boundary, the multi-byte character
+follows it, and every entry point accepts. -/
+private def good : B :=
+  [0x50,0x52,0x4F,0x58,0x59,0x20,0x55,0x4E,0x4B,0x4E,0x4F,0x57,0x4E,0x0D,0x0A,0xE2,0x82,0xAC]
+example : Utf8.valid good = true ∧ V1.windowLength good = some 15 ∧
+    Utf8.isCharBoundary good 15 = true := by decide
+example : V1.parseStr good = .ok { header := good.take 15, addresses := .unknown } := by decide
+example : V1.parseBytes good = .ok { header := good.take 15, addresses := .unknown } := by decide
+example : V1.fromStrAddresses good = .ok .unknown := by decide
+
 end C16
